@@ -36,6 +36,31 @@ class Infra(Exception):
     pass
 
 
+def jsonable(x):
+    """Make a case printable: ints beyond CPython's int->str limit become {"$bigint_hex": ...}."""
+    if isinstance(x, bool) or x is None or isinstance(x, (str, float)):
+        return x
+    if isinstance(x, int):
+        if -10 ** 4000 < x < 10 ** 4000:
+            return x
+        return {"$bigint_hex": hex(x)}
+    if isinstance(x, (list, tuple)):
+        return [jsonable(v) for v in x]
+    if isinstance(x, dict):
+        return {str(k): jsonable(v) for k, v in x.items()}
+    return repr(x)
+
+
+def unjsonable(x):
+    if isinstance(x, list):
+        return [unjsonable(v) for v in x]
+    if isinstance(x, dict):
+        if set(x) == {"$bigint_hex"}:
+            return int(x["$bigint_hex"], 16)
+        return {k: unjsonable(v) for k, v in x.items()}
+    return x
+
+
 def log(*a):
     print(*a, file=sys.stderr, flush=True)
 
@@ -220,7 +245,7 @@ def write_replay(prop_id, seed, payload):
     os.makedirs(REPLAY_DIR, exist_ok=True)
     path = os.path.join(REPLAY_DIR, f"{prop_id}-{seed}-{int(time.time())}.json")
     with open(path, "w", encoding="utf8") as fh:
-        json.dump(payload, fh, indent=1, ensure_ascii=False, default=str)
+        json.dump(jsonable(payload), fh, indent=1, ensure_ascii=False, default=str)
     return path
 
 
@@ -229,7 +254,7 @@ def write_evidence(prop_id, doc):
     path = os.path.join(EVIDENCE_DIR, f"{prop_id}.json")
     tmp = path + f".tmp{os.getpid()}"
     with open(tmp, "w", encoding="utf8") as fh:
-        json.dump(doc, fh, indent=1, ensure_ascii=False, default=str)
+        json.dump(jsonable(doc), fh, indent=1, ensure_ascii=False, default=str)
     os.replace(tmp, path)
 
 
@@ -254,9 +279,10 @@ class Outcome:
     def note_case(self, case, nontrivial):
         self.evaluations += 1
         if nontrivial:
+            case = jsonable(case)
             self.nontrivial.add(hashlib.sha256(json.dumps(case, sort_keys=True, ensure_ascii=False, default=str).encode()).hexdigest())
-        if len(self.samples) < 5 and nontrivial:
-            self.samples.append(case)
+            if len(self.samples) < 5:
+                self.samples.append(case)
 
 
 def run_check(mod, tier, seed, replay=None):
@@ -266,7 +292,7 @@ def run_check(mod, tier, seed, replay=None):
     prop_id = mod.ID
     ctx = {"tier": tier, "seed": seed, "verif": VERIF}
     if replay:
-        payload = json.load(open(replay, encoding="utf8"))
+        payload = unjsonable(json.load(open(replay, encoding="utf8")))
         ok = mod.replay(payload)
         print(("REPLAY property=%s still-fails" if not ok else "REPLAY property=%s passes") % prop_id)
         return 0 if ok else 1
